@@ -44,7 +44,7 @@ let eval (input : Sx.t) (obs : Sx.t) : Sx.t list * bool * bool * string =
                           pick adm (try List.nth ob_args k with _ -> -998)) args in
              if List.length params >= 2 then nontrivial := true;
              Sx.L [Sx.A "call"; Sx.L (Sx.A "args" :: List.map sx_int args); Sx.L [Sx.A "calls"; sx_int 1]; Sx.L [Sx.A "result"; Sx.A "1"]])
-    | "apply", [i; fields] ->
+    | "apply", (i :: fields :: _) ->      (* an optional (deep k): the struct behind k more pointers, the same to Apply *)
         let fs = List.map (fun f -> match Sx.args f with
           | [t; tg] -> (nat_of_int (Sx.int_of t), Sx.atom tg = "1") | _ -> failwith "field") (Sx.args fields) in
         let ob_sets = (match Sx.tag o with "aok" | "aerr" -> List.map (fun f -> match Sx.args f with [k; v] -> (Sx.int_of k, Sx.int_of v) | _ -> (-1, -1)) (Sx.args (Sx.field "sets" o)) | _ -> []) in
